@@ -38,10 +38,19 @@ def gen_model(rng, sw):
         r = rng.choice(spec["rxns"])
         v = rng.choice([0, 1, 0.5])
         r["lb"], r["ub"] = v, v
+    if kind == "narrow":
+        # a narrow, strictly positive forced range: the walk keeps hitting the boundary and takes the retry path
+        r = rng.choice(spec["rxns"])
+        v = rng.choice([0.5, 1, 2])
+        r["lb"], r["ub"] = v, v + rng.choice([3e-7, 1e-6, 5e-6, 0.0005, 0.01])
+    if sw.get("late") and len(spec["rxns"]) >= 2:
+        cyt = [m["id"] for m in spec["mets"] if m["compartment"] == "c"]
+        spec["late_reaction"] = {"id": "LATE", "lb": 0, "ub": rng.choice([5, 10]), "met": rng.choice(cyt),
+                                 "sum_of": rng.sample(ids, 2)}
     spec["user_cons"] = []
-    if sw["extra_cons"]:
+    if sw["extra_cons"] or (kind == "narrow" and rng.random() < 0.7):
         rs = rng.sample(ids, min(len(ids), 2))
-        if rng.random() < 0.4:
+        if rng.random() < (0.4 if kind != "narrow" else 0.9):
             v = rng.choice([1, 2, 0.5, 5])  # an equality with non-zero right-hand side: an inhomogeneous problem
             spec["user_cons"].append({"name": "ucon0", "expr": [[r, 1] for r in rs], "lb": v, "ub": v})
         else:
@@ -62,6 +71,23 @@ class World:
                 expr = expr + k * self.model.reactions.get_by_id(rid).flux_expression
             self.model.add_cons_vars([self.model.problem.Constraint(expr, lb=c["lb"], ub=c["ub"], name=c["name"])])
             self.ref.apply({"op": "add_cons", **c}, None)
+        if spec.get("late_reaction"):
+            # an auxiliary solver variable (defined as the sum of two fluxes; it restricts nothing) sits *before* the variables of a
+            # reaction that is added afterwards
+            from cobra import Reaction
+
+            lr = spec["late_reaction"]
+            m = self.model
+            aux = m.problem.Variable("aux_total", lb=-100000, ub=100000)
+            expr = aux - sum(m.reactions.get_by_id(r).flux_expression for r in lr["sum_of"])
+            m.add_cons_vars([aux, m.problem.Constraint(expr, lb=0, ub=0, name="aux_total_def")])
+            m.solver.update()
+            r = Reaction(lr["id"], lower_bound=lr["lb"], upper_bound=lr["ub"])
+            r.add_metabolites({m.metabolites.get_by_id(lr["met"]): -1})
+            m.add_reactions([r])
+            self.ref.rxns[lr["id"]] = {"lb": lr["lb"], "ub": lr["ub"], "mets": {lr["met"]: -1}, "rule": None, "name": "", "subsystem": "",
+                                       "notes": {}, "annotation": {}}
+            stats["probe:aux_variable_before_late_reaction"] += 1
         self.results = {}
         self.changed = False
 
@@ -123,6 +149,8 @@ class World:
                 return  # any exception is an acceptable answer to a failed solver call; wrong samples are not
             raise Violation("sampler_raises", {"exception": repr(raised)[:300]}, culprit=op)
         self.changed = True
+        if sampler is not None and getattr(sampler, "retries", 0):
+            self.stats["probe:sampler_retry_path_taken"] += 1
         fluxes = op.get("fluxes", True) or op.get("via") == "function"
         rids = [r.id for r in self.model.reactions]
         want_n = n if (m == "achr" or p <= 1) else int(math.ceil(n / p)) * p
@@ -210,7 +238,8 @@ class World:
 
 def make_swarm(rng):
     return {"max_mets": rng.randint(2, 4), "max_rxns": rng.randint(1, 4), "n_genes": 2, "p_rule": 0.1,
-            "solver": "glpk", "shape": rng.choice(["homogeneous", "homogeneous", "forced", "fixed", "mixed"]),
+            "solver": "glpk", "shape": rng.choice(["homogeneous", "homogeneous", "forced", "fixed", "mixed", "narrow", "narrow"]),
+            "late": rng.random() < 0.25,
             "extra_cons": rng.random() < 0.45}
 
 
@@ -287,6 +316,10 @@ def generate_and_run(run_seed, prop, tier, run_cfg):
         ref = hist.ref_from_spec(spec)
         for c in spec.get("user_cons", []):
             ref.apply({"op": "add_cons", **c}, None)
+        if spec.get("late_reaction"):
+            lr = spec["late_reaction"]
+            ref.rxns[lr["id"]] = {"lb": lr["lb"], "ub": lr["ub"], "mets": {lr["met"]: -1}, "rule": None, "name": "", "subsystem": "",
+                                  "notes": {}, "annotation": {}}
         built = fba.build_lp(ref)
         if built is not None:
             r = reflp.solve(built[0], {}, "max")
